@@ -4,7 +4,7 @@ reg(Check(
     "C14", "c14",
     coq_targets=["Cache/MultiCache.vo", "Cache/C14Check.vo", "Cache/C14Proofs.vo", "Props/C14.vo"],
     assumptions=[
-        "single goroutine per cache (C04/C10 cover concurrency); subscribers are observed at quiescence after every call",
+        "sequential families: single goroutine per cache, subscribers observed at quiescence after every call; concurrency is covered by two forced windows only: Cache.Remove between registration and walk of a subscriber, and a second goroutine calling Add/Remove/Reset/GnmiUpdate on the same name while a call is parked at its announce point (inside cache.Now or the feed callback)",
         "one clock reading per API call (cache.Now constant during a call); the clock does not run backwards across Reset / UpdateMetadata",
         "cache created without latency windows, server name and excluded metadata",
         "typed values restricted to string/int/uint/bool/bytes/json/empty",
